@@ -16,13 +16,13 @@ CLAIMED = {
             "xarray may widen selections before the backend is called; bound checked against the selection's line span", "7 C11"),
     "C05": ("Lean theorems attitude / data_quality / facility_1_4 / volume_directory / trailer / leader / static_records on the record layouts regenerated from /repo (incl. their this-expressions): a successful parse consumes exactly the declared bytes for every count and length; layout correspondence; all-N oracle with field-by-field comparison after each variable record",
             "the interpreter's meaning of construct classes is tied by differential testing; trailer_images / trailer_samples: the trailer reader decodes image i from the bytes between the running sums of the declared lengths (model tied by the trailer correspondence); numpy's frombuffer/reshape are contracts", "7 C05"),
-    "C07": ("Lean theorems read_valid / cache_is_used / no_cache_consulted over a state machine on the TEXT of the two index files, parametric in json.loads (two contracts), using the codec round trip; correspondence of codec, json and the cache-first open on real files, and of the reader's image group as the codec sees it (bridge, H11); oracle over producer x location x filesystem x rpc(write) x rpc(read)",
+    "C07": ("Lean theorems product_cache_transparent (whole-product cache-first model of io.open, one pair of index files per image, tied by H12: any benign index files, any options - the tree is the uncached tree at the call's chunk size) and read_valid / cache_is_used / no_cache_consulted over a state machine on the TEXT of the two index files, parametric in json.loads (two contracts), using the codec round trip; correspondence of codec, json and the cache-first open on real files, and of the reader's image group as the codec sees it (bridge, H11); oracle over producer x location x filesystem x rpc(write) x rpc(read)",
             "EnvOK is discharged for the groups of the layout-based reader (concrete_read_valid / cache_transparent_for_every_image / concrete_env_ok, bridge_total, through the bridge model tied by H9 + H11) up to the json and float-repr contracts and instants >= 1970; non-local filesystems are a recorded known finding", "7 C07"),
     "C08": ("Lean theorem decode_encode: decodeDoc r (encodeDoc g) = g.withRpc r for every group in a decidable codec domain (structural induction; incl. calendar/text round trip of datetime references), reader_group_round_trip / reader_group_cacheable (every group the layout-based reader builds from an image file with >= 1 line record lies in that domain and round-trips), tuple_tag, document_is_json; text-exact correspondence with caching.encode/decode on generated hierarchies and on the groups the reader builds from synthesised image files (bridge, H11)",
             "json float/int round trip and ndarray.tolist/np.array are contracts; zero-size rank>=2 arrays are a recorded known finding", "7 C08"),
-    "C09": ("Lean theorems prefix_not_json (no proper non-empty prefix of a dumped JSON container is balanced), open_after_crash (every state of arbitrary prefixes at both locations), concrete_open_after_crash (the same for the concrete environment of every image file that opens: no assumption about the groups), repair; every-prefix oracle on real documents, SIGKILL runs in the thorough tier",
+    "C09": ("Lean theorems product_open_after_crashes (whole product: interrupted index writes for any image at either location, then any open) and prefix_not_json (no proper non-empty prefix of a dumped JSON container is balanced), open_after_crash (every state of arbitrary prefixes at both locations), concrete_open_after_crash (the same for the concrete environment of every image file that opens: no assumption about the groups), repair; every-prefix oracle on real documents, SIGKILL runs in the thorough tier",
             "that an interrupted write leaves a prefix is OS behaviour (sampled); json.loads rejecting unbalanced text is a contract (tested on every prefix)", "7 C09"),
-    "C10": ("Lean theorem history_independent: for every operation sequence (induction, no length bound) every open returns the uncached group of its own rpc; inv_step; writes; real-file histories vs the flow model and vs fresh uncached opens, directory hashes, option-dict deep copies",
+    "C10": ("Lean theorems product_history_independent (whole-product model: any history of opens with any options, CLI runs, deletions and interrupted writes on any image file - every open returned the uncached tree of its own chunk size; induction over the history), product_writes, and history_independent: for every operation sequence (induction, no length bound) every open returns the uncached group of its own rpc; inv_step; writes; real-file histories vs the flow model and vs fresh uncached opens, directory hashes, option-dict deep copies",
             "caller-dict aliasing is only observed by the harness", "7 C10"),
     "C03": ("Lean theorems image_group / image_array (the image group as open_image builds it - descriptor, chunked line records, rebased offsets, transform_metadata - is the documented group for every file content and every records_per_chunk), line_metadata_11/15 (for ANY number n>=1 of line records, every file content: the image group is the frozen documented group, induction over n), header_attrs (present exactly when non-blank, all 32 combinations), field_positions (golden offsets/widths/scale factors/units), line_times; layout + transformer correspondence; field-by-field end-to-end oracle",
             "numpy dtype inference / datetime64 override and IEEE scaling are third-party (scaling checked exactly by the harness)", "7 C03"),
